@@ -163,6 +163,9 @@ pub enum Op9 {
     EntryOrInsert(u8),
     EntryOrInsertWith(u8),
     HasValue(u8),
+    /// presence queries (`has_value`, `has_value_raw`, `entry` is left out) while a shared / exclusive guard of
+    /// that very resource is alive: they are not fetches and answer the same
+    HasValueHeld(u8, bool),
     HasValueRaw(u8, u8),
     GetMut(u8),
     GetMutRaw(u8, u8),
@@ -175,6 +178,8 @@ pub enum Op9 {
     SetupRead(u8),
     SetupWrite(u8),
     ExecWrite(u8),
+    /// `exec` with `(Read<T1>, Write<T2>)`, T1 != T2: each missing member gets its default, whatever else is present
+    ExecPair(u8, u8),
     SystemDataOpt(u8),
 }
 
@@ -186,6 +191,8 @@ pub fn alphabet(full: bool) -> Vec<Op9> {
         v.push(Op9::EntryOrInsert(t));
         v.push(Op9::EntryOrInsertWith(t));
         v.push(Op9::HasValue(t));
+        v.push(Op9::HasValueHeld(t, false));
+        v.push(Op9::HasValueHeld(t, true));
         v.push(Op9::GetMut(t));
         v.push(Op9::TryFetch(t));
         v.push(Op9::TryFetchMut(t));
@@ -194,6 +201,11 @@ pub fn alphabet(full: bool) -> Vec<Op9> {
         v.push(Op9::SetupRead(t));
         v.push(Op9::SetupWrite(t));
         v.push(Op9::ExecWrite(t));
+        for t2 in 0..3u8 {
+            if t2 != t {
+                v.push(Op9::ExecPair(t, t2));
+            }
+        }
         v.push(Op9::SystemDataOpt(t));
         for d in 0..nd() {
             v.push(Op9::HasValueRaw(t, d));
@@ -323,6 +335,31 @@ fn do_exec_write<T: R9>(w: &mut World) -> Result<(Out, Option<u64>), String> {
     let s = w.exec(|d: Write<T>| ser(&*d))?;
     Ok((Out::Val(Some(s)), None))
 }
+fn do_has_held<T: R9>(w: &mut World, excl: bool) -> Result<(Out, Option<u64>), String> {
+    if !w.has_value::<T>() {
+        return Ok((Out::Bool(false), None));
+    }
+    let w: &World = w;
+    let (a, b) = if excl {
+        let g = w.fetch_mut::<T>();
+        let r = (w.has_value::<T>(), w.has_value_raw(ResourceId::new::<T>()));
+        drop(g);
+        r
+    } else {
+        let g = w.fetch::<T>();
+        let r = (w.has_value::<T>(), w.has_value_raw(ResourceId::new::<T>()));
+        drop(g);
+        r
+    };
+    Ok((Out::Bool(a && b), None))
+}
+fn do_exec_pair<A: R9, B: R9>(w: &mut World) -> Result<(Out, Option<u64>), String> {
+    let s = w.exec(|(a, b): (Read<A>, Write<B>)| {
+        ser(&*a)?;
+        ser(&*b)
+    })?;
+    Ok((Out::Val(Some(s)), None))
+}
 fn do_sysdata_opt<T: R9>(w: &mut World) -> Result<(Out, Option<u64>), String> {
     let d: Option<Read<T>> = w.system_data();
     match d {
@@ -344,6 +381,7 @@ fn apply(w: &mut World, m: &mut Model, op: Op9) -> Result<(), (String, String)> 
             Op9::EntryOrInsert(t) => by_type!(t, do_entry, w, false),
             Op9::EntryOrInsertWith(t) => by_type!(t, do_entry, w, true),
             Op9::HasValue(t) => by_type!(t, do_has, w),
+            Op9::HasValueHeld(t, excl) => by_type!(t, do_has_held, w, excl),
             Op9::HasValueRaw(k, d) => Ok((Out::Bool(w.has_value_raw(rid(k, d))), None)),
             Op9::GetMut(t) => by_type!(t, do_get_mut, w),
             Op9::GetMutRaw(k, d) => Ok((Out::Bool(w.get_mut_raw(rid(k, d)).is_some()), None)),
@@ -356,6 +394,14 @@ fn apply(w: &mut World, m: &mut Model, op: Op9) -> Result<(), (String, String)> 
             Op9::SetupRead(t) => by_type!(t, do_setup_read, w),
             Op9::SetupWrite(t) => by_type!(t, do_setup_write, w),
             Op9::ExecWrite(t) => by_type!(t, do_exec_write, w),
+            Op9::ExecPair(a, b) => match (a, b) {
+                (0, 1) => do_exec_pair::<Z, H>(w),
+                (0, _) => do_exec_pair::<Z, L>(w),
+                (1, 0) => do_exec_pair::<H, Z>(w),
+                (1, _) => do_exec_pair::<H, L>(w),
+                (_, 0) => do_exec_pair::<L, Z>(w),
+                _ => do_exec_pair::<L, H>(w),
+            },
             Op9::SystemDataOpt(t) => by_type!(t, do_sysdata_opt, w),
         }
     }));
@@ -393,7 +439,7 @@ fn apply(w: &mut World, m: &mut Model, op: Op9) -> Result<(), (String, String)> 
             let s = *m.entry((t, 0)).or_insert(made.unwrap_or(next_before));
             Out::Val(Some(zs(t, s)))
         }
-        Op9::HasValue(t) => Out::Bool(m.contains_key(&(t, 0))),
+        Op9::HasValue(t) | Op9::HasValueHeld(t, _) => Out::Bool(m.contains_key(&(t, 0))),
         Op9::HasValueRaw(k, d) | Op9::GetMutRaw(k, d) => Out::Bool(m.contains_key(&(k, d))),
         Op9::GetMut(t) | Op9::TryFetch(t) | Op9::TryFetchMut(t) | Op9::SystemDataOpt(t) => Out::Val(m.get(&(t, 0)).map(|s| zs(t, *s))),
         Op9::Fetch(t) | Op9::FetchMut(t) => match m.get(&(t, 0)) {
@@ -415,6 +461,18 @@ fn apply(w: &mut World, m: &mut Model, op: Op9) -> Result<(), (String, String)> 
         Op9::ExecWrite(t) => {
             let s = *m.entry((t, 0)).or_insert(next_before);
             Out::Val(Some(zs(t, s)))
+        }
+        Op9::ExecPair(a, b) => {
+            // members are set up in order; only the heap-owning and the large type draw a serial number
+            let mut nx = next_before;
+            if !m.contains_key(&(a, 0)) {
+                m.insert((a, 0), nx);
+                if a != 0 {
+                    nx += 1;
+                }
+            }
+            let s = *m.entry((b, 0)).or_insert(nx);
+            Out::Val(Some(zs(b, s)))
         }
     };
     if got != expect {
